@@ -134,6 +134,12 @@ func (fr *FnRun) assumeSticky(st, old *State, sig *types.Signature, args []Val, 
 // defaultLoopSpec: "no new failure so far" for every *Reader parameter, havoc everything.
 func (fr *FnRun) defaultLoopSpec(li *loopInfo) *LoopSpec {
 	if _, _, ok := stickySig(fr.fn.Signature, true); !ok {
+		if fr.ctr != nil {
+			// a loop without a spec in a function under contract: the weakest invariant (true) with
+			// everything havocked; whatever the contract says about state the loop may touch then
+			// fails as a named obligation instead of leaving the function undecided
+			return &LoopSpec{Ordinal: li.ordinal, Unroll: -1}
+		}
 		return nil
 	}
 	return &LoopSpec{Ordinal: li.ordinal, Invariants: []*Clause{stickyInv}, Unroll: -1}
